@@ -1525,7 +1525,10 @@ def many_frames_case(draw):
     return {"T": draw(st.sampled_from([70000, 150000, 300000])), "F": draw(st.integers(1, 3)),
             "S": draw(st.integers(2, 4)), "seed": draw(st.integers(0, 2 ** 31 - 1)),
             "dtype": draw(st.sampled_from(["int8", "uint8", "int32", "int64"])), "threads": draw(st.sampled_from([1, 4, 16])),
-            "skew": draw(st.sampled_from([1.0, 3.0, 8.0])), "entry": draw(st.sampled_from(["joint_counts", "mi_matrix"]))}
+            "skew": draw(st.sampled_from([1.0, 3.0, 8.0])), "entry": draw(st.sampled_from(["joint_counts", "mi_matrix"])),
+            # the same frames handed over as one trajectory or cut into 7 / 40 shorter ones of unequal length: the pooled
+            # counts - and so the mutual information - are those of all frames (cells far beyond 2**16 either way)
+            "pieces": draw(st.sampled_from([1, 1, 7, 40]))}
 
 
 def run_many_frames(case):
@@ -1550,14 +1553,20 @@ def run_many_frames(case):
                 jc = mutual_info.joint_counts(Xa, Xa, S, S)
                 require(np.array_equal(np.asarray(jc).astype(np.int64), ref), "joint counts of a long trajectory are not exact")
                 got = mutual_info.mutual_information(jc)
-            else:
+            elif case.get("pieces", 1) == 1:
                 got = mutual_info.mi_matrix([Xa], [Xa], S, S, normalize=False)
+            else:
+                k = case["pieces"]
+                cuts = sorted(set(int(c) for c in np.linspace(0, T, k + 1)[1:-1] + rng.randint(-50, 51, size=k - 1)))
+                parts = [np.ascontiguousarray(x) for x in np.split(Xa, cuts) if len(x)]
+                got = mutual_info.mi_matrix(parts, parts, S, S, normalize=False)
     got = np.asarray(got, dtype=float)
     require(got.shape == want.shape and close(got, want, ATOL_MI), "mutual information of a long trajectory differs from the "
             "reference MI of its exact counts", T=T, got=got.tolist(), want=want.tolist())
     require(bool(np.all(got >= -ATOL_MI)), "negative mutual information on a long trajectory", got=got.tolist())
     big = int(ref.max()) * T >= 2 ** 32
-    return Info(big, ["many_T=%d" % T, "count_times_T_beyond_2^32=%s" % big, "many_entry=" + case["entry"]],
+    return Info(big, ["many_T=%d" % T, "count_times_T_beyond_2^32=%s" % big, "many_entry=" + case["entry"],
+                      "many_pieces=%d" % (case.get("pieces", 1) if case["entry"] == "mi_matrix" else 1)],
                 key=[T, F, S, case["seed"], case["dtype"], case["entry"], case["skew"]])
 
 
@@ -1649,7 +1658,7 @@ CLAUSES = [
            doc="same table for every layout and 1..16 threads, up to 20 features on the parallel axis, repeated"),
     Clause("counts_threads_long", threads_case(long_T=40000), run_threads, quick=12, thorough=240,
            doc="race search: 10k-40k frames over 2-3 states, several thread counts, repeated"),
-    Clause("mi_many_frames", many_frames_case(), run_many_frames, quick=16, thorough=200,
+    Clause("mi_many_frames", many_frames_case(), run_many_frames, quick=32, thorough=200,
            doc="7e4..3e5 frames: exact counts and MI == reference (count products beyond 2**32)"),
     Clause("counts_1d_vectors_many_states", vec_case(), run_vec, quick=300, thorough=5000,
            doc="joint_counts(x, y) on two 1-D vectors, 2..40 states each, every integer dtype"),
